@@ -2394,18 +2394,11 @@ impl Archive {
             let sector_end = sector_offsets[i + 1] as u64;
 
             if sector_end < sector_start {
-                // This can happen with corrupted or malformed archives
-                // Try to recover by using the expected sector size
-                log::warn!(
-                    "Invalid sector offsets detected: start={sector_start}, end={sector_end} for sector {i}. Attempting recovery."
-                );
-
-                // Skip this sector and continue with zeros
-                let remaining =
-                    (file_info.file_size as usize).saturating_sub(decompressed_data.len());
-                let expected_size = remaining.min(sector_size);
-                decompressed_data.extend(vec![0u8; expected_size]);
-                continue;
+                // This can happen with corrupted or malformed archives; substituting zeros would
+                // hand the caller wrong content as if it were the file
+                return Err(Error::invalid_format(format!(
+                    "Invalid sector offsets: start={sector_start}, end={sector_end} for sector {i}"
+                )));
             }
 
             // The sector must lie inside the archive file
@@ -2459,10 +2452,10 @@ impl Archive {
                         match compression::decompress(sector_data, 0x08, expected_size) {
                             Ok(decompressed) => decompressed,
                             Err(e) => {
-                                log::warn!(
-                                    "Failed to decompress IMPLODE sector {i}: {e}. Using zeros."
-                                );
-                                vec![0u8; expected_size]
+                                // Returning zeros would hand the caller wrong content as if it
+                                // were the file
+                                log::warn!("Failed to decompress IMPLODE sector {i}: {e}");
+                                return Err(e);
                             }
                         }
                     } else {
@@ -2476,14 +2469,17 @@ impl Archive {
                         ) {
                             Ok(decompressed) => decompressed,
                             Err(e) => {
-                                log::warn!("Failed to decompress sector {i}: {e}. Using zeros.");
-                                vec![0u8; expected_size]
+                                // Returning zeros would hand the caller wrong content as if it
+                                // were the file
+                                log::warn!("Failed to decompress sector {i}: {e}");
+                                return Err(e);
                             }
                         }
                     }
                 } else {
-                    log::warn!("Empty compressed sector data for sector {i}. Using zeros.");
-                    vec![0u8; expected_size]
+                    return Err(Error::invalid_format(format!(
+                        "Empty compressed sector data for sector {i}"
+                    )));
                 }
             } else {
                 // Sector is not compressed
